@@ -83,7 +83,7 @@ pub enum ApiEv {
     ProbeReply { bytes: Vec<u8>, from: SocketAddr },
     ProbeTimeout,
     /// one full enumeration through `closest_nodes(target)` (hook H2) at this instant
-    Closest { node: usize, target: [u8; 20], ids: Vec<([u8; 20], SocketAddr)> },
+    Closest { node: usize, target: [u8; 20], ids: Vec<([u8; 20], SocketAddr)>, table: TableDump },
     Note(String),
     StepDone,
 }
